@@ -153,6 +153,15 @@ struct Flags {
   bool known_emptysrc_noted = false;
 };
 
+// a check on a sketch whose sample is already known (keyed findings KEY_OVER1 / KEY_TINY) to hold a different number of items
+// than its c says: a failure there is a consequence of that finding, not a new one (e.g. deserialization rebuilds floor(c) items)
+#define C18_CHECK_S(cond, id, model, msgexpr)                                                           \
+  do {                                                                                                  \
+    if ((model).over1) VF_CHECK_K(cond, id, KEY_OVER1, msgexpr << " (after a merge insertion with probability 1 + eps)");           \
+    else if ((model).tiny) VF_CHECK_K(cond, id, KEY_TINY, msgexpr << " (after an insertion with a share of c below rounding error)"); \
+    else VF_CHECK(cond, id, msgexpr);                                                                   \
+  } while (0)
+
 bool close_rel(double a, double b, double rel) { return std::fabs(a - b) <= rel * std::max(std::fabs(a), std::fabs(b)); }
 
 template <typename T>
@@ -363,18 +372,18 @@ void do_roundtrip(Slot<T>& s, int mode, Flags& f) {
   if (!ser_ok(sk)) { vf::label("roundtrip-skipped:c<1"); return; }
   unsigned hdr = mode == 1 ? 1 + static_cast<unsigned>(s.m.n % 23) : 0;
   auto bytes = sk.serialize(hdr);
-  VF_CHECK(bytes.size() == hdr + sk.get_serialized_size_bytes(), "serialized-size", "serialize(" << hdr << ") gives " << bytes.size() << " bytes, get_serialized_size_bytes " << sk.get_serialized_size_bytes());
+  C18_CHECK_S(bytes.size() == hdr + sk.get_serialized_size_bytes(), "serialized-size", s.m, "serialize(" << hdr << ") gives " << bytes.size() << " bytes, get_serialized_size_bytes " << sk.get_serialized_size_bytes());
   std::stringstream ss(std::ios::in | std::ios::out | std::ios::binary);
   sk.serialize(ss);
   std::string simg = ss.str();
-  VF_CHECK(simg.size() == bytes.size() - hdr && std::memcmp(simg.data(), bytes.data() + hdr, simg.size()) == 0, "stream-equals-bytes", "stream image differs from byte image");
+  C18_CHECK_S(simg.size() == bytes.size() - hdr && std::memcmp(simg.data(), bytes.data() + hdr, simg.size()) == 0, "stream-equals-bytes", s.m, "stream image differs from byte image");
   double c = sk.get_c();
   if (c != std::floor(c)) f.partial_ser = true;
   ebpps_sketch<T> back = (mode == 2) ? ebpps_sketch<T>::deserialize(ss) : ebpps_sketch<T>::deserialize(bytes.data() + hdr, bytes.size() - hdr);
-  VF_CHECK(back.get_c() == c && back.get_n() == sk.get_n() && back.get_k() == sk.get_k() && back.get_cumulative_weight() == sk.get_cumulative_weight(),
-           "roundtrip-fields", "round trip changed k/n/W/c: c " << back.get_c() << " vs " << c);
+  C18_CHECK_S(back.get_c() == c && back.get_n() == sk.get_n() && back.get_k() == sk.get_k() && back.get_cumulative_weight() == sk.get_cumulative_weight(),
+           "roundtrip-fields", s.m, "round trip changed k/n/W/c: c " << back.get_c() << " vs " << c);
   auto img2 = image_of(back);
-  VF_CHECK(img2.size() == simg.size() && std::memcmp(img2.data(), simg.data(), simg.size()) == 0, "roundtrip-image", "image of the deserialized sketch differs");
+  C18_CHECK_S(img2.size() == simg.size() && std::memcmp(img2.data(), simg.data(), simg.size()) == 0, "roundtrip-image", s.m, "image of the deserialized sketch differs");
   s.sk = std::move(back);
 }
 
